@@ -16,17 +16,24 @@ const FLAGS: [&str; 5] = ["", "m", "s", "i", "ms"];
 /// literal patterns for flag q: nullable iff the literal is empty
 const LITERALS: [&str; 8] = ["", "a", "a*", "(", "()", ".?", " ", "^"];
 const QFLAGS: [&str; 5] = ["q", "qi", "qx", "qm", "qs"];
+/// Token strings compiled under flag x: whether the regex is nullable is decided on the text
+/// with its white space removed as the property words it (outside class expressions only;
+/// escaped backslashes and escaped brackets beside real ones), e.g. a blank-only alternative.
+const T_XNULL: [&str; 10] = ["a", "\\\\", "[a]", "[ ]", "|", " ", "(", ")", "?", "\\["];
+const XFLAGS: [&str; 2] = ["x", "mx"];
 
 fn space_for(tier: Tier) -> (Space, usize) {
     let mut s = Space::new();
     match tier {
         Tier::Quick => {
             s.ast("K", 5, 64).ast("G", 5, 64).ast("AN", 4, 64).ast("ALT", 3, 64).ast("BR", 3, 64).ast("HIST", 3, 64).ast("K0E", 3, 64).ast("K0S", 3, 64);
+            s.tok("TXN", &T_XNULL, 4, 64);
             s.list("literals under q", LITERALS.len() as u64, 4);
             (s, 2)
         }
         Tier::Thorough => {
             s.ast("K", 5, 64).ast("G", 6, 64).ast("AN", 5, 64).ast("Q", 3, 64).ast("GC", 5, 64).ast("ALT", 4, 64).ast("BR", 4, 64).ast("HIST", 3, 64).ast("K0E", 4, 64).ast("K0S", 4, 64);
+            s.tok("TXN", &T_XNULL, 5, 64);
             s.list("literals under q", LITERALS.len() as u64, 4);
             (s, 3)
         }
@@ -103,13 +110,16 @@ impl Check for C16 {
             }
             return;
         }
+        let under_x = matches!(seg.kind, SegKind::Tok { .. });
         let sigma = match &seg.kind {
             SegKind::Ast { scope, .. } => crate::gen::scope(scope).sigma,
-            _ => unreachable!(),
+            _ => vec!['a', ' ', '\\'],
         };
-        let inputs = all_strings(&sigma, maxlen);
+        let inputs = all_strings(&sigma, maxlen.min(if under_x { 2 } else { maxlen }));
         space::for_each_text(seg, lo, hi, &mut |_i, text| {
-            let parsed = match common::ref_valid(text, ctx) {
+            // under flag x the reference reads the text with its white space removed
+            let ref_text: String = if under_x { crate::refparse::strip_x(&text.chars().collect::<Vec<char>>()).into_iter().collect() } else { text.to_string() };
+            let parsed = match common::ref_valid(&ref_text, ctx) {
                 Some(p) => p,
                 None => return,
             };
@@ -118,7 +128,8 @@ impl Check for C16 {
                 return;
             }
             out.shape = parsed.ast.shape();
-            for flags in FLAGS {
+            let menu: &[&str] = if under_x { &XFLAGS } else { &FLAGS };
+            for flags in menu.iter().copied() {
                 let fl = Fl::parse(flags);
                 let nullable = match common::ref_nullable(&parsed, fl, ctx) {
                     Some(n) => n,
